@@ -154,9 +154,17 @@ CHECKS = {
     ),
 }
 
+CHECKS["C18"] = dict(
+    rules="R18.1-R18.2",
+    what="graph insertion discipline of build.load_graph: every insertion of a State is dominated by the clash test for its kind (module id already in the graph; file already seen under another id), the clash branch reports a blocker and raises, inserted paths are recorded; find_sources and modulefinder share one suffix table with the stub suffix first and one package marker",
+    quant="directory layouts x flag settings x argument orders",
+    technique="CFG must-pass / reachability queries over load_graph; constant evaluation and sibling cross-check of the two path-mapping modules' tables",
+    note="Only the 'stops with a duplicate-module error' half of the statement has a shape in the code. That the name crawl_up assigns to a file is the name under which FindModuleCache resolves an import to that file is a relation between two algorithms over all directory trees and is not decided.",
+    design="DESIGN.md §4 C18 and §10",
+)
+
 NOT_APPLICABLE = {
     "C01": "soundness of inference relates run-time values to inferred types for every program and execution; no clause of it is visible in the shape of the code (visitor exhaustiveness is already enforced by abstract methods; a must-call-check_subtype rule would be wrong on correct code)",
-    "C18": "the file<->module mapping is a relation between the outputs of two algorithms (crawl_up, FindModuleCache._find_module) over all directory trees; there is no pairing, ordering or table whose shape shows it",
     "C19": "validity and faithfulness of emitted stub text are properties of the output per input module; the only shape-visible convention (typing names via add_name/require_name) has a single instance",
 }
 
